@@ -285,7 +285,8 @@ def bi_merge(old_data, new_data, asof = 'now', existing_data = None):
     if index_name is None:
         df.index.name = 'index'
     gb = df.sort_values(_updated, kind = 'stable').groupby(df.index.name) # stable, so that of two updates with the same stamp, the later merged is the later row
-    res = pd.concat([_drop_repeats(d) for _, d in gb])
+    res = [_drop_repeats(d) for _, d in gb]
+    res = pd.concat(res) if len(res) else df # versions without any row leave an empty store: there is nothing to concatenate
     res.index.name = index_name
     return res
     
